@@ -225,8 +225,7 @@ func (s *sink) waitCount(prefix string, want int, d time.Duration, done <-chan s
 	}
 }
 
-// Line grammar, deliberately loose so that a maintainer's new output does not alarm: a line must start with
-// a protocol keyword (or be a FEN / number line printed by the fen, eval and perft commands) and hold only
+// Line grammar, deliberately loose so that a maintainer's new output does not alarm: a line must hold only
 // printable characters; bestmove and readyok lines must be exact because they are counted; a pv may only
 // hold moves; and no second message may start in the middle of a line (that is what a torn line looks like).
 var bestLine = regexp.MustCompile(`^bestmove ([a-h][1-8][a-h][1-8][nbrq]?|0000)( ponder [a-h][1-8][a-h][1-8][nbrq]?)?$`)
@@ -251,8 +250,9 @@ func lineOK(l string) bool {
 	case strings.HasPrefix(l, "id ") || strings.HasPrefix(l, "option "):
 		return true
 	}
-	// fen / eval / perft output: no letters other than piece letters, side, castling and square names
-	return regexp.MustCompile(`^[0-9pnbrqkPNBRQKw a-h/.-]+( nps)?$`).MatchString(l) || strings.HasPrefix(l, "cp ") || strings.HasPrefix(l, "mate ")
+	// anything else (fen / eval / perft output, a diagnostic of the maintainer's choosing): a torn line shows as a
+	// second message starting inside a line, which was excluded above
+	return true
 }
 
 type hangErr struct {
